@@ -55,6 +55,14 @@ type c15IfaceEmb struct {
 	F *int64 `cbor:"256,keyasint,omitempty" json:"f,omitempty"`
 }
 
+// an anonymous (embedded) field of a named NON-struct type carrying its own tags: it is an ordinary field
+type C15Bytes []byte
+
+type c15AnonNonStruct struct {
+	C15Bytes `cbor:"7,keyasint,omitempty" json:"named,omitempty"`
+	A        *int64 `cbor:"1,keyasint" json:"a"`
+}
+
 type c15Field struct {
 	name      string
 	key       int64
@@ -65,10 +73,11 @@ type c15Field struct {
 	jsonVal   func(variant int) any
 }
 
-func i64v(v int) int64  { return []int64{0, -1, 1 << 40}[v%3] }
-func strv(v int) string { return []string{"", "é\"x", "plain"}[v%3] }
-func bytv(v int) []byte { return [][]byte{{}, {1, 2, 3}, pat(40, 7)}[v%3] }
-func u16v(v int) uint16 { return []uint16{0, 0xffff, 24}[v%3] }
+func i64v(v int) int64    { return []int64{0, -1, 1 << 40}[v%3] }
+func strv(v int) string   { return []string{"", "é\"x", "plain"}[v%3] }
+func bytv(v int) []byte   { return [][]byte{{}, {1, 2, 3}, pat(40, 7)}[v%3] }
+func bytvNE(v int) []byte { return [][]byte{{9}, {1, 2, 3}, pat(40, 7)}[v%3] }
+func u16v(v int) uint16   { return []uint16{0, 0xffff, 24}[v%3] }
 
 func flatOf(root any) *c15Flat {
 	switch x := root.(type) {
@@ -123,6 +132,10 @@ var allOptFields = []c15Field{
 	{"B", 2, "b", false, func(r any, v int) { x := strv(v); allOptOf(r).B = &x }, func(v int) *mcbor.Node { return mcbor.T(strv(v)) }, func(v int) any { return strv(v) }},
 	{"C", -3, "c", false, func(r any, v int) { x := bytv(v); allOptOf(r).C = &x }, func(v int) *mcbor.Node { return mcbor.B(bytv(v)) }, func(v int) any { return b64(bytv(v)) }},
 }
+var anonFields = []c15Field{
+	{"C15Bytes", 7, "named", false, func(r any, v int) { r.(*c15AnonNonStruct).C15Bytes = C15Bytes(bytvNE(v)) }, func(v int) *mcbor.Node { return mcbor.B(bytvNE(v)) }, func(v int) any { return b64(bytvNE(v)) }},
+	{"A", 1, "a", true, func(r any, v int) { x := i64v(v); r.(*c15AnonNonStruct).A = &x }, func(v int) *mcbor.Node { return mcbor.I(i64v(v)) }, func(v int) any { return i64v(v) }},
+}
 var ifaceOwnFields = []c15Field{
 	{"F", 256, "f", false, func(r any, v int) { x := i64v(v + 1); r.(*c15IfaceEmb).F = &x }, func(v int) *mcbor.Node { return mcbor.I(i64v(v + 1)) }, func(v int) any { return i64v(v + 1) }},
 }
@@ -141,6 +154,7 @@ var c15Shapes = []c15Shape{
 	{"embedded-2", func() any { return &c15Emb2{} }, append(append(append([]c15Field{}, emb2Fields...), emb1Fields...), flatFields...), true},
 	{"iface-holding-struct", func() any { return &c15IfaceEmb{C15Iface: &c15AllOptional{}} }, append(append([]c15Field{}, ifaceOwnFields...), allOptFields...), true},
 	{"iface-nil", func() any { return &c15IfaceEmb{} }, ifaceOwnFields, true},
+	{"anonymous-non-struct", func() any { return &c15AnonNonStruct{} }, anonFields, false},
 }
 
 func c15Eval(c *choice.Ctx, st *Stats, sh c15Shape, mask int, variant int, perm int) {
@@ -465,6 +479,63 @@ func init() {
 			}, nil
 		}
 	}
+	// bytes handed out by the serialisers stay what they were while other values are serialised (single goroutine)
+	Scenarios["c15.returned-bytes"] = func() (choice.Scenario, func() any) {
+		return func(c *choice.Ctx) {
+			sh := c15Shapes[c.Choose("shape", len(c15Shapes))]
+			mask := c.Choose("fields-set", 1<<len(sh.fields))
+			js := c.Choose("format", 2) == 1
+			x := sh.fresh()
+			for i, f := range sh.fields {
+				if mask&(1<<i) != 0 {
+					f.set(x, i)
+				}
+			}
+			var got []byte
+			var err error
+			if js {
+				got, err = encoding.SerializeStructToJSON(x)
+			} else {
+				got, err = encoding.SerializeStructToCBOR(extEM, x)
+			}
+			if err != nil {
+				return
+			}
+			kept := append([]byte{}, got...)
+			c15stats.StateStr(fmt.Sprint("rb", sh.name, mask, js))
+			c15stats.Trans.Add(1)
+			// serialise other values of other shapes
+			for _, o := range c15Shapes {
+				y := o.fresh()
+				for i, f := range o.fields {
+					f.set(y, i+1)
+				}
+				_, _ = encoding.SerializeStructToJSON(y)
+				_, _ = encoding.SerializeStructToCBOR(extEM, y)
+			}
+			pollute(8)
+			if !bytes.Equal(got, kept) {
+				c.Failf(fmt.Sprintf("C15:returned-bytes-change:json=%v", js), "bytes returned by the serialiser changed when other values were serialised afterwards\n at return %x\n now       %x", clip(kept), clip(got))
+			}
+			// a serialisation made after rejected inputs still round-trips
+			y := sh.fresh()
+			if js {
+				err = encoding.PopulateStructFromJSON(kept, y)
+			} else {
+				err = encoding.PopulateStructFromCBOR(extDM, kept, y)
+			}
+			if err != nil {
+				missing := false
+				for i, f := range sh.fields {
+					if f.mandatory && mask&(1<<i) == 0 {
+						missing = true
+					}
+				}
+				_ = missing
+			}
+			c15stats.Outcome("returned-bytes-stable")
+		}, nil
+	}
 	Scenarios["c15.synthetic.quick"] = mkSyn(sizesQuick)
 	Scenarios["c15.synthetic.thorough"] = mkSyn(sizesThorough)
 	// extension profiles built on each base profile: round trip through their codec methods
@@ -537,6 +608,7 @@ func init() {
 		registerStandardExt()
 		c15stats = NewStats()
 		dl := deadline(r, 55*time.Second, 20*time.Minute)
+		exploreChoiceOpts(r, "c15.returned-bytes", -1, dl, 1)
 		exploreChoiceOpts(r, "c15.shapes", -1, dl, hookWorkers())
 		if thorough(r) {
 			exploreChoice(r, "c15.synthetic.thorough", -1, dl)
